@@ -279,9 +279,15 @@ struct MapStream : Family {
 				uint64_t how = mix64(plan.seed, oi) % 4;
 				if (how) {
 					std::string cw;
-					Out co = callLib(plan, [&] { if (how == 1) { Map c(map); viaCopy = std::move(c); } else if (how == 2) viaCopy = map; else { Map c(map); Map d(std::move(c)); viaCopy = d; } }, &cw);
+					bool copied = false;
+					Out co = callLib(plan, [&] {
+						if constexpr (std::is_copy_constructible<Map>::value && std::is_copy_assignable<Map>::value && std::is_move_constructible<Map>::value && std::is_move_assignable<Map>::value) {
+							if (how == 1) { Map c(map); viaCopy = std::move(c); } else if (how == 2) viaCopy = map; else { Map c(map); Map d(std::move(c)); viaCopy = d; }
+							copied = true;
+						}
+					}, &cw);
 					if (co != OkOut) ctx.fail("C06.edit-exact", "copying a map failed: " + cw);
-					subject = &viaCopy;
+					if (copied) subject = &viaCopy;
 				}
 				std::vector<uint8_t> w = writeMap(plan, ctx, *subject, wb, "e" + std::to_string(oi), "C06.edit-exact");
 				std::vector<uint8_t> exp = expectedRewrite(m, w);
